@@ -10,7 +10,7 @@ PROPS_MODULES = ["C19.Props"]
 RUN_MODULE = "C19.Run"
 RUN_FN = "run_case"
 HARNESS_BIN = "c19"
-HARNESS_BINS = ["c19"]
+HARNESS_BINS = ["c19", "c19e"]
 SHRINK_KEEP = ("new",)
 RULE = ("cases: random histories of the sans-io UdpManager over the simulator's alphabet (client datagram, backend "
         "datagram, resolution incl. stale/duplicate ids, SetCluster flipping the affinity mode and the per-flow knobs, "
@@ -52,6 +52,8 @@ def translate():
         fails.append("manager.rs reschedule: no longer 'emit ArmTimer only when the minimum changes and is Some'")
     if not re.search(r"filter\(\|\(_, flow\)\| flow\.idle_deadline <= now\)", m):
         fails.append("manager.rs handle_timeout: due filter is no longer idle_deadline <= now")
+    if not re.search(r"self\.armed_deadline = None;\s*self\.reschedule\(\);", m[m.index("pub fn handle_timeout"):m.index("pub fn poll_timeout")]):
+        fails.append("manager.rs handle_timeout: no longer forgets the armed deadline before the final reschedule (a firing must re-emit ArmTimer)")
     if "payload.is_empty()" not in m:
         fails.append("manager.rs SourceTupleExtractor: empty payload no longer rejected")
     if not re.search(r"src\.set_port\(0\)", md):
@@ -144,8 +146,10 @@ def history_case(rng, cid, nops):
         elif r < 76:
             ops.append(["tick", rng.choice([0, 1, 49, 50, 51, 99, 100, 101, 300, 1000, 3000, rng.randint(1, 5000)])])
             ops.append(["timeout"])
-        elif r < 79:
+        elif r < 77:
             ops.append(["timeout"])
+        elif r < 79:
+            ops.append(["fire", rng.choice([0, 0, 1, 49, 50])])
         elif r < 85:
             ops.append(["setc"] + rcfg(rng))
         elif r < 90:
@@ -194,8 +198,10 @@ def steady_case(rng, cid):
             c2[6] = int(rng.random() < 0.4)
             cfg = c2
             ops.append(["setc"] + c2)
-        elif r < 0.96:
+        elif r < 0.94:
             ops += [["tick", rng.choice([100, 2500, 4999, 5000, 5001])], ["timeout"]]
+        elif r < 0.96:
+            ops.append(["fire", rng.choice([0, 1, 50])])
         else:
             ops.append(["abort", rng.randint(0, cap)])
     ops.append(["dump"])
@@ -231,6 +237,48 @@ def nontrivial(case, o):
     return cnt("mcreated") >= 2 and cnt("tob") >= 1 and cnt("toc") >= 1 and cnt("close") >= 1
 
 
+def e2e_case(rng, cid):
+    """one black-box scenario for harness/src/bin/c19e.rs: a real worker thread, loopback sockets"""
+    wp = rng.randint(0, 1)
+    responses = rng.choice([0, 0, 0, 1, 2])
+    requests = rng.choice([0, 0, 0, 1, 3])
+    pp = rng.randint(0, 1)
+    max_flows = rng.choice([0, 1, 2, 3])
+    nb = rng.choice([1, 2, 3])
+    ops = [["setup", wp, responses, requests, pp, max_flows, nb]]
+    count = {}
+    for _ in range(rng.randint(5, 14)):
+        ci = rng.randrange(0, 6)
+        count[ci] = count.get(ci, 0) + 1
+        ops.append(["send", ci, ("c%d-%d" % (ci, count[ci])).encode() + bytes(rng.randrange(256) for _ in range(rng.choice([0, 1, 8, 100])))])
+    return Case(cid, ops)
+
+
+def extra_stage(tier, rng, work):
+    """thorough only: the socket shell (lib/src/udp.rs) end to end. The idle-reaper scenario sleeps past a
+    1 s idle timeout twice: the second expiry hung about every other run before fix 8526f1a."""
+    if tier != "thorough":
+        return dict(coverage=dict(e2e_cases=0))
+    cases = [Case("idle_reaper", [["setup", 1, 0, 0, 0, 1, 2, 1], ["send", 0, b"a0"], ["sleep", 2500, 1],
+                                  ["send", 1, b"a1"], ["sleep", 2500, 1], ["send", 0, b"a2"], ["sleep", 2500, 1],
+                                  ["send", 2, b"a3"]])]
+    cases += [e2e_case(rng, "e%d" % i) for i in range(120)]
+    outs, problems = vlib.run_harness("c19e", cases, os.path.join(work, "e2e"), "release", timeout=1200, shards=4)
+    viols, failures = [], list(problems)
+    delivered = 0
+    for c in cases:
+        o = outs.get(c.id)
+        if o is None:
+            failures.append("e2e case %s produced no output" % c.id)
+            continue
+        if o["panic"] is not None:
+            viols.append((c, "panic", o["panic"]))
+        for (vc, vt) in o["viol"]:
+            viols.append((c, vc, vt))
+        delivered += sum(1 for ob in o["obs"] if len(ob) >= 4 and ob[0] == "send")
+    return dict(failures=failures, viols=viols, coverage=dict(e2e_cases=len(cases), e2e_datagrams_delivered=delivered))
+
+
 LEVEL_TEXT = ("Machine-checked proof (Coq 8.16) over an executable model of the sans-io UDP flow core (UdpManager + UdpFlow "
               "+ exact slab free list): the manager's invariants as an inductive invariant over every input history, "
               "stickiness, isolation, the admission bound and exactly-once teardown as theorems over all histories; the "
@@ -238,6 +286,8 @@ LEVEL_TEXT = ("Machine-checked proof (Coq 8.16) over an executable model of the 
               "correspondence run of the real UdpManager against the extracted model, with the property's own oracle "
               "evaluated on the implementation's output stream.")
 LEVEL_NOTE = ("Trusted: Coq kernel; extraction (ExtrOcamlBasic) and ocaml/driver.ml for the correspondence only; the "
-              "affinity hash is an oracle; time is unbounded. The socket shell lib/src/udp.rs is not in the theorems.")
+              "affinity hash is an oracle; time is unbounded. The socket shell lib/src/udp.rs is not in the theorems: it is "
+              "exercised black-box in the thorough tier only (real worker thread, loopback sockets: who received which "
+              "payload, the cap, slot release); the shell's one-shot timer is modelled in the driver (op fire).")
 TECHNIQUE = "Rocq/Coq proof over an executable Gallina model + differential correspondence (extracted OCaml vs real crate)"
 CLAIMED = True
